@@ -757,6 +757,11 @@ func (g *generator) convertInlineFragment(
 	// You might think fragmentTypedef is just fragment.ObjectDefinition, but
 	// actually that's the type into which the fragment is spread.
 	fragmentTypedef := g.schema.Types[fragment.TypeCondition]
+	if fragment.TypeCondition == "" {
+		// An inline fragment without a type-condition (`... @include(if: $x)
+		// { ... }`) applies to whatever type it is spread into.
+		fragmentTypedef = containingTypedef
+	}
 	if !fragmentMatches(containingTypedef, fragmentTypedef) {
 		return nil, nil
 	}
